@@ -4,7 +4,7 @@ NEXT Next
 CONSTANTS
   MaxAttrs = 2
   Letters = {2, 3, 7, 9, 12, 13}
-  HeaderIds = {1, 2, 3, 4, 5, 6, 7, 8, 9, 10, 11, 12, 13}
-  Defects = {"valcut"}
+  HeaderIds = {1, 2, 3, 4, 5, 6, 7, 8, 9, 10, 11, 12, 13, 14}
+  Defects = {"valcut", "hdrcut1", "hdrcut3"}
 INVARIANTS AcceptIffWellFormed ErrorIsACause RejectedHasCause ExposureInv EmitCase
 CHECK_DEADLOCK FALSE
